@@ -3,6 +3,6 @@
 set -e
 cd "$(dirname "$0")"
 export CARGO_NET_OFFLINE=true RUSTC_BOOTSTRAP=1
-( cd coq && coq_makefile -f _CoqProject -o Makefile >/dev/null && timeout 3000 make -j16 )
+./mk
 ( cd harness && RUSTFLAGS="--cfg mech_lang_mech_verif" CARGO_TARGET_DIR=/verif/.cache/target timeout 3000 cargo build --offline --quiet )
 echo setup ok
